@@ -269,3 +269,31 @@ pub fn c06_oracle(case: &ConvCase, exp: &Expected, obs: &Observation) -> Verdict
     Verdict::Pass(g)
 }
 
+
+/// C04 through a connection: each response is one well-formed self-delimiting message with
+/// exactly the body (none for HEAD / 1xx / 204 / 304), the next response follows directly.
+pub fn c04_conn_oracle(case: &ConvCase, exp: &Expected, obs: &Observation) -> Verdict {
+    if let Some(v) = engine_trouble(obs) {
+        return v;
+    }
+    if let Some(s) = &obs.stall {
+        return crate::runner::fail("C04/conn/stall", s.clone());
+    }
+    // (a response with a 1xx status given to respond() is an interim response to the client:
+    // such cases say nothing about the final message and are skipped)
+    if case.progs.iter().any(|p| matches!(p.finish, Finish::Respond { status, .. } if status < 200)) {
+        return Verdict::Pass(Good::trivial().class("skipped:1xx-as-final"));
+    }
+    tri!(prefix("C04", comp_delivery_sequence(case, exp, obs)));
+    let view = client_view(&obs.client, exp);
+    tri!(prefix("C04/conn", comp_client_stream(exp, obs, &view, exp.msgs.len(), false)));
+    let on_wire = view.finals.iter().any(|(_, m)| !m.body.is_empty());
+    let mut g = if on_wire { Good::nontrivial() } else { Good::trivial() };
+    g = g
+        .class_if(case.conv.reqs.iter().any(|r| r.is_head()), "HEAD")
+        .class_if(case.conv.reqs.iter().any(|r| r.header("TE").is_some()), "TE-present")
+        .class_if(view.msgs.iter().any(|m| m.chunks > 0), "chunked-on-wire")
+        .class_if(case.conv.reqs.iter().any(|r| r.version == "HTTP/1.0"), "http/1.0")
+        .class(format!("transport:{:?}", case.transport));
+    Verdict::Pass(g)
+}
